@@ -272,7 +272,11 @@ Definition serve_round (p : regp) (st : sess) : option (round * sess) :=
   match regp_recv p (ss_src st) ok with
   | None => None
   | Some r =>
-      let alloc_called := rr_allocated r || (match rr_errid r with Some EBUSY => true | _ => false end) in
+      (* the script advances whenever the sink was called (at least one octet arrived), also when the allocation failed and the
+         reception then ended in a channel error *)
+      let alloc_called := match deframe p (ss_src st) with
+                          | Some (_, octets, _) => negb (length octets =? 0)%nat
+                          | None => false end in
       let script' := if alloc_called then tl (ss_alloc st) else ss_alloc st in
       let v := match ss_verdicts st with [] => (0, 0, 0) | v :: _ => v end in
       let '(calls, reply) := regp_process p r (backend_of (g_mem16 p) v) in
